@@ -36,7 +36,7 @@ def run_child(sg, isc, order=0, host=0):
     env["PYTHONHASHSEED"] = "0"
     root = os.path.dirname(os.path.dirname(os.path.dirname(os.path.abspath(__file__))))
     env["PYTHONPATH"] = root
-    p = subprocess.run([sys.executable] + (["-" + "O" * sys.flags.optimize] if sys.flags.optimize else []) + ["-m", "vf.props.c19_child", os.environ.get("VF_REPO", "/repo"), str(sg), str(isc), str(order), str(host)],
+    p = subprocess.run([sys.executable] + (["-" + "O" * sys.flags.optimize] if sys.flags.optimize else []) + (["-" + "b" * sys.flags.bytes_warning] if sys.flags.bytes_warning else []) + ["-m", "vf.props.c19_child", os.environ.get("VF_REPO", "/repo"), str(sg), str(isc), str(order), str(host)],
                        capture_output=True, text=True, env=env, cwd=root, timeout=600)
     if p.returncode != 0:
         # the library could not even be driven in this configuration
